@@ -82,7 +82,6 @@ NA = {
  'C24': "functional semantics of each collection function over all inputs; not a shape property",
  'C30': "shortest-path optimality is a numerical property of runtime values",
  'C34': "equivalence of two algorithms over all lines and tolerances needs execution or a solver, which is a different family",
- 'C36': "equality of worlds across schedules is a relation between runtime values (the race-freedom part is decided under C35)",
 }
 
 # Keep the claim texts in step with DESIGN.md section 5: "*Decides*: ..." and "*Not decided*: ..."
